@@ -104,10 +104,10 @@ def enum_members(prog, cid):
     return [n for n, bl in c.scope.bindings.items() if not n.startswith("_") and bl[-1].kind == "assign"]
 
 
-def rule_branch_table(ctx):
+def rule_branch_table(ctx, rule_id="C15.branch-table"):
     run = ctx.run
     prog = ctx.prog
-    R = "C15.branch-table"
+    R = rule_id
     fi = prog.func(U + "::format_datetime")
     run.anchor(fi.id, fi.where)
     rel = fi.module.relpath
